@@ -81,7 +81,7 @@ class Report:
         stale = [k for k in known if k not in {v["key"] for v in self.violations}]
         for k in stale:
             print("NOTE: known finding no longer reproduced: %s" % k)
-        rdir = os.path.join(VERIF, "replay", self.pid)
+        rdir = os.path.join(os.environ.get("VERIF_REPLAY_DIR") or os.path.join(VERIF, "replay"), self.pid)
         os.makedirs(rdir, exist_ok=True)
         for v in real:
             path = os.path.join(rdir, _safe(v["key"]) + ".json")
@@ -127,8 +127,9 @@ class Report:
             "wall_s": round(time.time() - self.t0, 3),
             "violations": len(real),
         }
-        os.makedirs(os.path.join(VERIF, "evidence"), exist_ok=True)
-        with open(os.path.join(VERIF, "evidence", self.pid + ".json"), "w") as fh:
+        edir = os.environ.get("VERIF_EVIDENCE_DIR") or os.path.join(VERIF, "evidence")
+        os.makedirs(edir, exist_ok=True)
+        with open(os.path.join(edir, self.pid + ".json"), "w") as fh:
             json.dump(ev, fh, indent=1, default=str)
         print("%s: %d rule instance(s), %d new violation(s), %d known finding(s), %.1fs" % (
             self.pid, evaluations, len(real), len(printed_known), time.time() - self.t0))
